@@ -24,7 +24,7 @@ typedef std::vector<double> V;
 struct Entry
 {
 	std::string fn;							  // name of the function (and spelling)
-	std::string groups;						  // property ids it belongs to, e.g. "C06 C07"
+	std::string groups;						  // property ids it belongs to, e.g. "C06 C07"; a trailing "@family" names functions that may share hidden state
 	int nargs;								  // number of argument tuples
 	std::function<V(int)> call;				  // evaluates argument tuple k
 };
@@ -73,26 +73,26 @@ static std::vector<Entry> table()
 	auto add = [&](const char* fn, const char* groups, int n, std::function<V(int)> f) { T.push_back({fn, groups, n, f}); };
 	// ---------------------------------------------------------------- gamma family (C06), used by the distributions (C07)
 	static const unsigned FN[] = {0, 1, 5, 20, 21, 100, 170};
-	add("Factorial", "C06 C07", 7, [](int k) { return V{Factorial(FN[k])}; });
-	static const int BN[][2] = {{5, 2}, {30, 15}, {67, 30}, {170, 85}, {171, 3}, {400, 200}, {10, 0}, {10, 10}};
-	add("Binomial_Coefficient", "C06 C07", 8, [](int k) { return V{Binomial_Coefficient(BN[k][0], BN[k][1])}; });
+	add("Factorial", "C06 C07 @fact", 7, [](int k) { return V{Factorial(FN[k])}; });
+	static const int BN[][2] = {{5, 2}, {30, 15}, {67, 30}, {170, 85}, {171, 3}, {400, 200}, {10, 0}, {10, 10}, {6, 3}, {21, 10}, {22, 11}, {101, 50}};
+	add("Binomial_Coefficient", "C06 C07 @fact", 12, [](int k) { return V{Binomial_Coefficient(BN[k][0], BN[k][1])}; });
 	static const double GX[] = {0.5, 1.0, 3.5, 15.0, 17.5, 29.0, 31.5, 43.0, 150.0, 164.0, 1.0e-3};
-	add("GammaLn", "C06 C07", 11, [](int k) { return V{GammaLn(GX[k])}; });
-	add("Gamma", "C06 C07", 9, [](int k) { return V{Gamma(GX[k])}; });
+	add("GammaLn", "C06 C07 @gamma", 11, [](int k) { return V{GammaLn(GX[k])}; });
+	add("Gamma", "C06 C07 @gamma", 9, [](int k) { return V{Gamma(GX[k])}; });
 	static const double PA[][2] = {{0.5, 0.5}, {2.0, 3.0}, {30.0, 3.0}, {2.0, 30.0}, {105.0, 101.0}, {90.0, 101.0}, {150.0, 150.0}, {99.0, 100.0}, {101.0, 100.5}, {400.0, 380.0}, {1e-3, 2.0}};
-	add("GammaP", "C06 C07", 11, [](int k) { return V{GammaP(PA[k][0], PA[k][1])}; });
-	add("GammaQ", "C06 C07", 11, [](int k) { return V{GammaQ(PA[k][0], PA[k][1])}; });
+	add("GammaP", "C06 C07 @gamma", 11, [](int k) { return V{GammaP(PA[k][0], PA[k][1])}; });
+	add("GammaQ", "C06 C07 @gamma", 11, [](int k) { return V{GammaQ(PA[k][0], PA[k][1])}; });
 	add("Upper_Incomplete_Gamma", "C06", 4, [](int k) { return V{Upper_Incomplete_Gamma(PA[k][0], PA[k][1])}; });
 	add("Lower_Incomplete_Gamma", "C06", 4, [](int k) { return V{Lower_Incomplete_Gamma(PA[k][0], PA[k][1])}; });
 	static const double IP[][2] = {{0.5, 0.5}, {0.1, 3.0}, {0.9, 3.0}, {0.99999, 2.0}, {1e-6, 30.0}, {0.5, 101.0}, {0.3, 0.7}};
-	add("Inv_GammaP", "C06 C07", 7, [](int k) { return V{Inv_GammaP(IP[k][0], IP[k][1])}; });
-	add("Inv_GammaQ", "C06 C07", 7, [](int k) { return V{Inv_GammaQ(IP[k][0], IP[k][1])}; });
+	add("Inv_GammaP", "C06 C07 @gamma", 7, [](int k) { return V{Inv_GammaP(IP[k][0], IP[k][1])}; });
+	add("Inv_GammaQ", "C06 C07 @gamma", 7, [](int k) { return V{Inv_GammaQ(IP[k][0], IP[k][1])}; });
 	static const double EP[] = {-0.999, -0.5, 0.0, 1e-8, 0.3, 0.9, 0.999999};
 	add("Inv_Erf", "C06 C07 C17", 7, [](int k) { return V{Inv_Erf(EP[k])}; });
 	// ---------------------------------------------------------------- scalars and harmonics (C17)
 	static const double DX[] = {-3.0, -1.3, -0.21, -0.05, 0.0, 0.05, 0.19, 0.21, 0.4, 1.3, 3.0, 12.0};   // +-pairs: same magnitude, other sign
-	add("Dawson_Integral", "C17", 12, [](int k) { return V{Dawson_Integral(DX[k])}; });
-	add("Erfi", "C17", 12, [](int k) { return V{Erfi(DX[k])}; });
+	add("Dawson_Integral", "C17 @dawson", 12, [](int k) { return V{Dawson_Integral(DX[k])}; });
+	add("Erfi", "C17 @dawson", 12, [](int k) { return V{Erfi(DX[k])}; });
 	static const double RN[][2] = {{2.5, 1}, {-2.5, 1}, {123456.789, 3}, {-0.000123456, 2}, {0.0, 3}, {9.9995, 4}, {1e-300, 2}, {-19.1, 1}};
 	add("Round", "C17 C20", 8, [](int k) { return V{Round(RN[k][0], (unsigned)RN[k][1])}; });
 	add("Sign/Step/RelDiff", "C17", 8, [](int k) { return V{(double)Sign(RN[k][0]), Sign(RN[k][0], -RN[k][1]), StepFunction(RN[k][0]), Relative_Difference(RN[k][0], RN[k][1]), (double)Floats_Equal(RN[k][0], RN[k][1])}; });
@@ -106,7 +106,7 @@ static std::vector<Entry> table()
 	add("Gauss", "C07", 8, [](int k) { return V{PDF_Gauss(XS[k], 0.5, 1.5), CDF_Gauss(XS[k], 0.5, 1.5)}; });
 	add("Quantile_Gauss", "C07", 7, [](int k) { return V{Quantile_Gauss(0.5 * (EP[k] + 1.0), 0.5, 1.5)}; });
 	static const unsigned BT[][2] = {{0, 0}, {5, 2}, {30, 30}, {170, 85}, {170, 0}, {100, 37}};
-	add("Binomial", "C07", 6, [](int k) { return V{PMF_Binomial(BT[k][0], 0.3, BT[k][1]), CDF_Binomial(BT[k][0], 0.3, BT[k][1])}; });
+	add("Binomial", "C07 @fact", 6, [](int k) { return V{PMF_Binomial(BT[k][0], 0.3, BT[k][1]), CDF_Binomial(BT[k][0], 0.3, BT[k][1])}; });
 	static const double PM[][2] = {{0.5, 0}, {3.0, 2}, {3.0, 10}, {50.0, 100}, {90.0, 101}, {120.0, 101}, {300.0, 260}, {1e-3, 1}};
 	add("Poisson", "C07", 8, [](int k) { return V{PMF_Poisson(PM[k][0], (unsigned)PM[k][1]), CDF_Poisson(PM[k][0], (unsigned)PM[k][1])}; });
 	static const double IC[][2] = {{0, 0.1}, {3, 0.05}, {3, 0.95}, {99, 0.5}, {100, 0.5}, {150, 0.1}, {5, 1e-9}};
@@ -126,14 +126,14 @@ static std::vector<Entry> table()
 	// (order, interval): the same order on several intervals, several orders on the same interval, intervals of equal length elsewhere
 	static const double GI[][3] = {{1, -1, 1}, {2, -1, 1}, {3, -1, 1}, {4, -1, 1}, {7, -1, 1}, {8, -1, 1}, {30, -1, 1}, {31, -1, 1}, {6, 0, 1}, {6, 2, 3}, {6, 0, 2}, {30, 0, 1}, {30, 2, 3},
 								   {40, 0, 1}, {5, 0, 1}, {64, -3, 5}, {65, -3, 5}, {6, 1e-20, 3e-20}, {6, 1e6, 3e6}};
-	add("Compute_Gauss_Legendre_Roots_and_Weights", "C12 C13", 19, [](int k) {
+	add("Compute_Gauss_Legendre_Roots_and_Weights", "C12 C13 @gl", 19, [](int k) {
 		V o;
 		for(auto& r : Compute_Gauss_Legendre_Roots_and_Weights((unsigned)GI[k][0], GI[k][1], GI[k][2]))
 			for(double x : r)
 				o.push_back(x);
 		return o;
 	});
-	add("Integrate_Gauss_Legendre(n)", "C12 C13", 19, [](int k) { return V{Integrate_Gauss_Legendre([](double x) { return 1.0 / (1.0 + x * x); }, GI[k][1], GI[k][2], (unsigned)GI[k][0])}; });
+	add("Integrate_Gauss_Legendre(n)", "C12 C13 @gl", 19, [](int k) { return V{Integrate_Gauss_Legendre([](double x) { return 1.0 / (1.0 + x * x); }, GI[k][1], GI[k][2], (unsigned)GI[k][0])}; });
 	static const char* ME[] = {"Trapezoidal", "Gauss-Legendre", "Gauss-Kronrod", "Tanh-Sinh", "Gauss-Legendre_2", "Adaptive-Simpson"};
 	static const int MP[] = {0, 5, 6, 31, 40, 3};
 	add("Integrate(method)", "C13 C12", 36, [](int k) {
@@ -142,7 +142,7 @@ static std::vector<Entry> table()
 			p = 6;
 		return V{Integrate([](double x) { return std::exp(-0.5 * x) * std::cos(x); }, -0.5 + 0.1 * (k % 5), 2.0 + 0.3 * (k % 3), std::string(ME[m]), p)};
 	});
-	add("Integrate(GL2, intervals)", "C13 C12", 8, [](int k) {
+	add("Integrate(GL2, intervals)", "C13 C12 @gl", 8, [](int k) {
 		static const double IV[][3] = {{0, 1, 0}, {2, 3, 0}, {0, 1, 6}, {2, 3, 6}, {0, 2, 6}, {5, 6, 0}, {-1, 0, 40}, {0, 1, 40}};
 		return V{Integrate([](double x) { return 1.0 / (1.0 + x * x); }, IV[k][0], IV[k][1], "Gauss-Legendre_2", (int)IV[k][2]),
 				 Integrate([](double x) { return 1e-30 / (1.0 + x * x); }, IV[k][0], IV[k][1], "Adaptive-Simpson", 0)};
@@ -290,6 +290,30 @@ int main(int argc, char** argv)
 			T.emit({{"e", "Fresh"}, {"fn", E[f].fn}, {"a", k}, {"ret", r.returned}, {"out", r.returned ? r.result : outcome(r)}});
 			npairs++;
 		}
+	// two-call histories: every ordered pair of calls of the same function, and of functions of the same family (those that may
+	// share a table or a cache), each pair in its own process: the second call must give the reference value
+	{
+		auto fam = [&](const Entry& e) { size_t p = e.groups.find('@'); return p == std::string::npos ? "=" + e.fn : e.groups.substr(p); };
+		for(size_t f1 = 0; f1 < E.size(); f1++)
+			for(size_t f2 = 0; f2 < E.size(); f2++)
+			{
+				if(fam(E[f1]) != fam(E[f2]))
+					continue;
+				for(int k1 = 0; k1 < E[f1].nargs; k1++)
+					for(int k2 = 0; k2 < E[f2].nargs; k2++)
+					{
+						if(f1 == f2 && k1 == k2)
+							continue;
+						if(quick && fam(E[f1])[0] != '@' && ((k1 * 7 + k2 * 3 + (int)f1) % 3) != 0)
+							continue;	// quick tier: a third of the same-function pairs, all pairs inside the named families
+						ChildResult r = run_child([&]() { E[f1].call(k1); return bitsof(E[f2].call(k2)); }, 30);
+						if(r.returned)
+							T.emit({{"e", "Call"}, {"h", -1}, {"fn", E[f2].fn}, {"a", k2}, {"out", r.result}, {"after", E[f1].fn + "#" + std::to_string(k1)}});
+						else
+							T.emit({{"e", "Died"}, {"h", -1}, {"fn", E[f2].fn}, {"a", k2}, {"status", r.signal ? 128 + r.signal : r.status}, {"after", E[f1].fn + "#" + std::to_string(k1)}});
+					}
+			}
+	}
 	// histories: long random interleavings in one process each; a call that ends the process ends the history (logged as Died)
 	int nhist = quick ? 3 : 12, len = quick ? 1200 : 4000;
 	for(int h = 0; h < nhist; h++)
